@@ -268,7 +268,7 @@ pub fn run(rep: &mut Report) {
                 entry or >= 3 files; distinct = distinct canonical result set"
         .to_string();
     let mut rng = Rng::new(rep.seed ^ 0xC03);
-    let n = rep.budget(700, 20);
+    let n = rep.budget(250, 56);
     let out = rep.workdir.join("out");
     std::fs::create_dir_all(&out).unwrap();
     let mut reqs: Vec<String> = vec![];
